@@ -53,6 +53,11 @@ def run(ctx):
         e5.kernel_job(ctx, 'k_tblcompress.c', name='tblcompress', harness_bound=8, timeout=600, checks='safety'),
         e5.kernel_job(ctx, 'k_tblcompress.c', name='tblcompress_w', defines=['VP_WITNESS'], harness_bound=8, timeout=600, expect='witness'),
     ]
+    # the generated reader on file images with symbolic table contents: sets in any order, element widening, damaged files
+    for s in common.select(ctx, corpus.specs(names=['lit1'])):
+        for c in ([C('Cem'), C('Cae', ['-Cae'])] if quick else [C('Cem'), C('Cae', ['-Cae']), C('r', api='r')]):
+            js, g = E.tload_jobs(ctx, s, c, cuts=(('OW',) if c.name == 'Cem' else ()))
+            jobs += js
     ctx.run_cbmc(jobs)
     ctx.functions.update(['yytbl_data_compress', 'min_int_size', 'yytbl_data_geti', 'yytbl_data_seti'])
     tree = ctx.ensure_tree()
